@@ -20,6 +20,7 @@ type PeerSpec struct {
 	Dial   bool   `json:"dial"`    // not pre-attached: dialled on demand through the NewConnection callback
 	DialErr bool  `json:"dial_err"` // the dial fails
 	Role   int    `json:"role"`    // 0 healthy, 1 stuck writer (never reads), 2 failing reader, 3 failing writer
+	Late   bool   `json:"late"`    // attached by a harness task while traffic addressed to it is already flowing
 }
 
 type PEnv struct {
@@ -59,6 +60,8 @@ func genProxyRaw(hostile bool) func(g *rand.Rand, tier string) any {
 			if !hostile && g.IntN(3) == 0 {
 				ps.Dial = true
 				ps.DialErr = g.IntN(5) == 0
+			} else if !hostile && g.IntN(3) == 0 {
+				ps.Late = true
 			}
 			p.Peers = append(p.Peers, ps)
 		}
@@ -79,7 +82,7 @@ func genProxyRaw(hostile bool) func(g *rand.Rand, tier string) any {
 				bad.Role, bad.Dial = 0, true // slow dial
 			}
 			p.Peers = append(p.Peers, bad)
-			p.Reattach = g.IntN(3)
+			p.Reattach = g.IntN(4) // 3: concurrently with the handling of the old connection's failure
 			if bad.Dial {
 				p.Reattach = 0
 			}
@@ -227,6 +230,8 @@ func execProxyRaw(e *Env, pp any) {
 		}
 	}
 	dials := map[string]int{}
+	maybeSent := map[string]int{}
+	attachedEv := map[string]int{} // late peers: event count when AddClient had returned
 	px := goat.NewProxy(pctx, proxyName, func(id string) (goat.RpcReadWriter, error) {
 		// runs on a goat goroutine (proxyClient.connect)
 		e.Pt("dial")
@@ -248,6 +253,7 @@ func execProxyRaw(e *Env, pp any) {
 		histMu.Lock()
 		disconnects = append(disconnects, id)
 		histMu.Unlock()
+		e.Pt("disconnect.cb") // the callback takes a while: other tasks may run meanwhile
 	})
 	for _, n := range order {
 		rp := peers[n]
@@ -256,6 +262,21 @@ func execProxyRaw(e *Env, pp any) {
 		}
 		a, b := mkConn(n, 0)
 		rp.end, rp.pxEnd, rp.first = a, b, a
+		if rp.spec.Late {
+			// attaches itself while envelopes addressed to it may already be arriving
+			name, rp2, b2 := n, rp, b
+			e.Go("peer."+n+".attach", func() {
+				e.Pt("attach")
+				px.AddClient(name, b2)
+				histMu.Lock()
+				attachedEv[name] = e.evN
+				histMu.Unlock()
+				e.Log("peer.attached", name, 0, "")
+				e.Note("fault.peer.late-attach")
+				startReader(rp2, 0)
+			})
+			continue
+		}
 		px.AddClient(n, b)
 		startReader(rp, 0)
 	}
@@ -268,7 +289,16 @@ func execProxyRaw(e *Env, pp any) {
 			credit[n] = make(chan struct{}, p.Credit)
 		}
 	}
-	release := func(n string) {
+	holdsToken := map[string]bool{} // payloads whose sender took a credit token
+	release := func(n string, r *Rpc) {
+		k := envKey(r)
+		histMu.Lock()
+		held := holdsToken[k]
+		delete(holdsToken, k)
+		histMu.Unlock()
+		if !held {
+			return
+		}
 		if ch := credit[n]; ch != nil {
 			select {
 			case <-ch:
@@ -278,7 +308,7 @@ func execProxyRaw(e *Env, pp any) {
 	}
 	for i := range taps {
 		t := taps[i]
-		t.l.OnWritten(func(int, *Rpc) { release(t.name) })
+		t.l.OnWritten(func(_ int, r *Rpc) { release(t.name, r) })
 	}
 	// expected deliveries
 	type sentEnv struct {
@@ -287,6 +317,7 @@ func execProxyRaw(e *Env, pp any) {
 		final    string // destination peer after rewriting / routing ("" = not deliverable)
 		hdrDest  string // header.Destination after the interceptor
 		accepted bool
+		maybe    bool // addressed to a peer that was attaching at the time: either outcome is fine
 		payload  string
 		spoof    int
 		sentEv   int
@@ -332,7 +363,7 @@ func execProxyRaw(e *Env, pp any) {
 		rp.gen++
 		a, b := mkConn("bad", rp.gen)
 		t := taps[len(taps)-1]
-		t.l.OnWritten(func(int, *Rpc) { release(t.name) })
+		t.l.OnWritten(func(_ int, r *Rpc) { release(t.name, r) })
 		rp.end, rp.pxEnd = a, b
 		px.AddClient("bad", b)
 		// the re-attached peer is healthy
@@ -379,12 +410,32 @@ func execProxyRaw(e *Env, pp any) {
 					tp := peers[final]
 					if tp == nil || (tp.spec.Dial && tp.spec.DialErr) {
 						deliverable = false
+					} else if tp.spec.Late {
+						histMu.Lock()
+						_, attached := attachedEv[final]
+						histMu.Unlock()
+						if !attached {
+							// sent while the peer was not (yet) attached: a failed dial
+							// may lose it, or the attach may win
+							deliverable = false
+							se.maybe = true
+							histMu.Lock()
+							maybeSent[final]++
+							tooMany := maybeSent[final] > 3 // 3 + credit 12 stays below the 16-slot buffer
+							histMu.Unlock()
+							if tooMany {
+								continue // stay within the credit: these take no token
+							}
+						}
 					}
 				}
 				if deliverable {
 					se.final, se.accepted = final, true
 					if ch := credit[final]; ch != nil {
 						ch <- struct{}{} // blocks while 12 are outstanding for that destination
+						histMu.Lock()
+						holdsToken[payload] = true
+						histMu.Unlock()
 					}
 				}
 				r := &Rpc{Id: uint64(1000 + i), Body: &goatorepo.Body{Data: []byte(payload)}}
@@ -442,6 +493,14 @@ func execProxyRaw(e *Env, pp any) {
 				// let the failure be processed first
 				e.Drive(nil)
 				reattach()
+			}
+			if p.Reattach == 3 {
+				// the scheduler decides where the re-attach lands relative to the
+				// handling of the failure (including inside the disconnect callback)
+				e.Go("peer.bad.reattach", func() {
+					e.Pt("reattach")
+					reattach()
+				})
 			}
 			continue
 		}
@@ -518,6 +577,9 @@ func execProxyRaw(e *Env, pp any) {
 				e.Violate("C17", "spoofed-forwarded", "proxy.go:forwardRpc", "envelope %d with %s was forwarded to %s", se.idx, []string{"", "a forged source", "no header"}[se.spoof], n)
 				continue
 			}
+			if se.maybe {
+				continue
+			}
 			if !se.accepted || se.final != n {
 				if !(cancelled) {
 					e.Violate(prop, "misrouted", "proxy", "envelope %d from %s (destination %q -> %q) was delivered to %s", se.idx, se.from, p.Envs[se.idx].To, se.final, n)
@@ -554,6 +616,7 @@ func execProxyRaw(e *Env, pp any) {
 	// 2. every accepted envelope is delivered exactly once (unless dropped for
 	// overflow, its destination is a bad peer, or the proxy was cancelled)
 	missing := 0
+	missingList := ""
 	for _, se := range sents {
 		if !se.accepted || !se.written || count[se.payload] > 0 {
 			continue
@@ -562,10 +625,13 @@ func execProxyRaw(e *Env, pp any) {
 			continue
 		}
 		missing++
+		if missing <= 6 {
+			missingList += fmt.Sprintf(" #%d:%s->%s", se.idx, se.from, se.final)
+		}
 	}
 	if missing > 0 {
 		if missing <= drops {
-			e.Violate(prop, "dropped-on-overflow", "proxy.go:forwardRpc:select#0:default", "%d accepted envelopes were never delivered; the proxy counted %d overflow drops (credit %d)", missing, drops, p.Credit)
+			e.Violate(prop, "dropped-on-overflow", "proxy.go:forwardRpc:select#0:default", "%d accepted envelopes were never delivered (%s); the proxy counted %d overflow drops (credit %d)", missing, missingList, drops, p.Credit)
 		} else {
 			blocked := ""
 			if p.Hostile {
@@ -654,7 +720,7 @@ func execProxyRaw(e *Env, pp any) {
 			if p.Reattach != 0 && gotDisc {
 				cur := goat.VerifProxyConn(px, "bad")
 				if cur == nil {
-					e.Violate(prop, "reattached-connection-removed", "proxy.go:serveClients", "the failure of bad's old connection removed the newer connection attached under the same name (re-attached %s the failure)", []string{"", "before", "after"}[p.Reattach])
+					e.Violate(prop, "reattached-connection-removed", "proxy.go:serveClients", "the failure of bad's old connection removed the newer connection attached under the same name (re-attached %s the failure)", []string{"", "before", "after", "concurrently with the handling of"}[p.Reattach%4])
 				} else if cur != goat.RpcReadWriter(bad.pxEnd) {
 					e.Violate(prop, "reattached-connection-replaced", "proxy.go:serveClients", "the proxy holds a connection for bad that is not the newest one")
 				} else {
